@@ -1,11 +1,41 @@
 # Configuration of ./check C10 (fields: see props.d/C06.py).
+def _const_items_rejected(stderr, hdir):
+    """c10c holds one `const` item per case: when the bin does not build, the const items the compiler
+    rejected (error locations inside src/bin/c10c.rs) are named as the failing cases."""
+    import os
+    import re
+    src = open(os.path.join(hdir, "src", "bin", "c10c.rs")).read().split("\n")
+    item_at = {}
+    for i, l in enumerate(src, 1):
+        m = re.match(r"\s*const_\w+!\((\w+),", l)
+        if m:
+            item_at[i] = m.group(1)
+    case_of = {}
+    for l in src:
+        m = re.match(r"\s*cc!\((\w+),\s*([-\d]+),\s*([-\d]+),\s*([-\d]+),\s*([-\d]+),\s*([-\d]+),\s*([-\d]+)\);", l)
+        if m:
+            case_of[m.group(1)] = " ".join(m.groups()[1:]) + " 0"
+    out, seen = [], set()
+    blocks = re.split(r"\n(?=error)", stderr)
+    for b in blocks:
+        if not b.startswith("error"):
+            continue
+        head = b.split("\n")[0]
+        for m in re.finditer(r"src/bin/c10c\.rs:(\d+):", b):
+            name = item_at.get(int(m.group(1)))
+            if name and name in case_of and name not in seen:
+                seen.add(name)
+                out.append((case_of[name], "the const item %s of this case is rejected at compile time: %s" % (name, head[:300])))
+    return out
+
+
 PROP = {
     "regen_files": ["GenGuards.v", "GenSigs.v"],
     "num": 10,
     "runs": [{"tag": "c10", "bin": "c10", "timeout": {"quick": 300, "thorough": 900}},
              # the same calls inside `const` items; a separate bin so that a compile-time
              # evaluation error does not take the run-time cases (and their replays) down
-             {"tag": "c10const", "bin": "c10c", "timeout": 120},
+             {"tag": "c10const", "bin": "c10c", "timeout": 120, "on_build_failure": _const_items_rejected},
              # chunk lengths of 2^32, 2^33, 2^32 + 3 (the array type is never instantiated): direct oracle
              {"tag": "c10huge", "bin": "c10", "args": ["--huge"], "model": False}],
     "mismatch_is_failing": True,
